@@ -316,13 +316,27 @@ func (r *Run) Finish() int {
 		fmt.Printf("  signature: %s\n  clause: %s\n", v.Sig, v.What)
 	}
 
+	// Inconclusive comes in two kinds.  Case-level: one scenario could not be decided (a generous
+	// watchdog fired on a loaded machine, a harness-side connection problem) while the others were.
+	// Structural: the run as a whole observed too little to say anything.  Both are printed and
+	// recorded; only the structural kind — or case-level ones beyond a small share of the run —
+	// makes the check exit 2, so that one starved scenario does not turn a run of thousands of
+	// decided ones into "no verdict".
+	caseLevel := len(r.inconclusive)
+	structural := 0
 	if !r.Replaying() {
 		if len(r.distinct) < r.minDistinct {
 			r.inconclusive = append(r.inconclusive, fmt.Sprintf("only %d distinct non-trivial cases observed (floor %d)", len(r.distinct), r.minDistinct))
+			structural++
 		}
 		if r.evals == 0 {
 			r.inconclusive = append(r.inconclusive, "no evaluations")
+			structural++
 		}
+	}
+	tolerated := int(r.evals / 50)
+	if tolerated < 2 {
+		tolerated = 2
 	}
 
 	cov := map[string]any{
@@ -365,6 +379,8 @@ func (r *Run) Finish() int {
 	}
 	if len(r.inconclusive) > 0 {
 		cov["inconclusive"] = r.inconclusive
+		cov["inconclusive_case_level"] = caseLevel
+		cov["inconclusive_tolerated_without_exit_2"] = tolerated
 	}
 	ev := map[string]any{
 		"property_id": r.Prop,
@@ -395,7 +411,10 @@ func (r *Run) Finish() int {
 		for _, s := range r.inconclusive {
 			fmt.Printf("INCONCLUSIVE property=%s %s\n", r.Prop, s)
 		}
-		return 2
+		if structural > 0 || caseLevel > tolerated {
+			return 2
+		}
+		fmt.Printf("NOTE property=%s %d of %d evaluations undecided (tolerated up to %d): verdict stands for the decided ones\n", r.Prop, caseLevel, r.evals, tolerated)
 	}
 	return 0
 }
